@@ -8,3 +8,8 @@ import Refine.Model.Geom
 import Refine.Model.Search
 import Refine.Lemmas.ScalarReal
 import Refine.Props.C15
+import Refine.Lemmas.SearchTree
+import Refine.Lemmas.SearchGeom
+import Refine.Lemmas.SearchTri
+import Refine.Lemmas.SearchWall
+import Refine.Props.C12
